@@ -688,3 +688,94 @@ func tickerExtremes(r *vkit.Report) {
 		}
 	})
 }
+
+// Group "ticker-years": periods and jitters of decades to centuries, every pair with
+// 0 <= jitter < d, armed many times (the offset of each arming is a fresh random draw) by
+// NewJitterTicker and by Reset on a running ticker. Each arming is watched for >= 1 ms. Rule: the
+// regime rule of seq.go — a tick stamped after the arming call returned and earlier than
+// d - jitter after the arming call began belongs to no regime (with d - jitter of years: no tick at
+// all may follow); and no panic.
+func tickerYears(r *vkit.Report) {
+	ds := []time.Duration{maxD, maxD - 1, maxD - time.Hour, maxD/2 + time.Hour, maxD / 2, 1 << 62}
+	type dj struct{ d, j time.Duration }
+	var pairs []dj
+	for _, d := range ds {
+		for _, j := range []time.Duration{1, 1 * ms, time.Second, time.Hour, 1000 * time.Hour, maxD / 4, maxD/2 - 1, maxD / 2, maxD/2 + 1, d - 1} {
+			if j >= 0 && j < d {
+				pairs = append(pairs, dj{d, j})
+			}
+		}
+	}
+	armings := r.Scale(20, 60) // per pair and way of arming
+	r.Cases("ticker-years", len(pairs), 4, func(c *vkit.Case) {
+		x := pairs[c.Index]
+		name := fmt.Sprintf("(%d ns, %d ns)", int64(x.d), int64(x.j))
+		bad := func(sig, what string, w map[string]any) {
+			w["d_ns"], w["jitter_ns"] = int64(x.d), int64(x.j)
+			c.Violation(sig, what, w)
+		}
+		judge := func(regs []seqRegime, ticks []time.Time, how string, n int) bool {
+			for _, T := range ticks {
+				r.Eval(1)
+				if !tickLegit(regs, T) {
+					last := regs[len(regs)-1]
+					bad("tick-outside-every-regime", fmt.Sprintf("%s %s (arming %d): a tick stamped %s after the call began was received within the 1 ms watch; d - jitter is %s, no regime can have sent it", how, name, n, T.Sub(last.b), x.d-x.j),
+						map[string]any{"arming": n, "how": how, "tick_after_call_began_ns": int64(T.Sub(last.b)), "ticks_in_watch": len(ticks)})
+					return false
+				}
+			}
+			return true
+		}
+		// (A) NewJitterTicker, again and again
+		for n := 0; n < armings; n++ {
+			var tk *xtime.JitterTicker
+			b := time.Now()
+			if p := vkit.Try(func() { tk = xtime.NewJitterTicker(x.d, x.j) }); p != nil {
+				bad("ticker-panic", fmt.Sprintf("NewJitterTicker%s panicked although d > 0 and 0 <= jitter < d: %s", name, p.Msg), map[string]any{"panic": p.Msg})
+				return
+			}
+			ticks := readTicks(tk, 4, 1*ms, false)
+			vkit.Try(tk.Stop)
+			r.Count("ticker-years", "armings by NewJitterTicker watched >= 1 ms", 1)
+			if !judge([]seqRegime{{d: x.d, j: x.j, b: b}}, ticks, "NewJitterTicker", n) {
+				return
+			}
+		}
+		// (B) Reset on a running ticker, again and again (back to the grid in between)
+		gd := 200 * us
+		var tk *xtime.JitterTicker
+		gb := time.Now()
+		if p := vkit.Try(func() { tk = xtime.NewJitterTicker(gd, 0) }); p != nil {
+			bad("ticker-panic", "NewJitterTicker(200us, 0) panicked: "+p.Msg, map[string]any{"panic": p.Msg})
+			return
+		}
+		defer func() { vkit.Try(tk.Stop) }()
+		for n := 0; n < armings; n++ {
+			grid := seqRegime{d: gd, b: gb}
+			if n%3 != 2 {
+				// let it run: one tick of the grid regime (every third arming follows the previous huge one directly)
+				readTicks(tk, 1, 20*ms, false)
+			}
+			rb := time.Now()
+			if p := vkit.Try(func() { tk.Reset(x.d, x.j) }); p != nil {
+				bad("ticker-panic", fmt.Sprintf("Reset%s on a running ticker panicked although d > 0 and 0 <= jitter < d: %s", name, p.Msg), map[string]any{"panic": p.Msg})
+				return
+			}
+			grid.end = time.Now()
+			ticks := readTicks(tk, 4, 1*ms, false)
+			r.Count("ticker-years", "armings by Reset on a running ticker watched >= 1 ms", 1)
+			if !judge([]seqRegime{grid, {d: x.d, j: x.j, b: rb}}, ticks, "Reset", n) {
+				return
+			}
+			if n%3 != 1 {
+				gb = time.Now()
+				if p := vkit.Try(func() { tk.Reset(gd, 0) }); p != nil {
+					bad("ticker-panic", "Reset(200us, 0) panicked: "+p.Msg, map[string]any{"panic": p.Msg})
+					return
+				}
+			}
+		}
+		r.Count("ticker grid: New/Reset without panic", fmt.Sprintf("d=%d jitter=%d (years)", int64(x.d), int64(x.j)), 2*armings)
+		r.Distinct("years|" + name)
+	})
+}
